@@ -221,7 +221,7 @@ pub fn run(tier: Tier) -> i32 {
 
 /// Thread-level exploration (E-SCHED/B) + model conformance. Returns (executions, decisions, impl traces accepted by the model).
 fn thread_level(tier: Tier, all: &[Shape], rep: &mut Report) -> (u64, u64, u64) {
-    crate::guard::set_wall_limit_ms(5_000);
+    crate::guard::set_wall_limit_ms(10_000);
     let pick = |names: &[&str]| -> Vec<Shape> { all.iter().filter(|s| names.iter().any(|n| s.name == *n || s.name.starts_with(&format!("{n}/P2")))).cloned().collect() };
     let (plain, cancel, dev, pre, wall) = match tier {
         Tier::Quick => (pick(&["hashjoin-inner", "groupby", "sort-limit", "backpressure", "error-in-partition", "insert-select", "matcte-union"]), pick(&["hashjoin-inner", "backpressure", "agg-distinct"]), 1usize, 1usize, 20u64),
@@ -245,9 +245,19 @@ fn thread_level(tier: Tier, all: &[Shape], rep: &mut Report) -> (u64, u64, u64) 
     let mut per_shape = Vec::new();
     let mut sample = None;
     let mut all_complete = true;
-    for (shapes, with_cancel) in [(&plain, false), (&cancel, true)] {
+    // lock level: every lock() of the operator states (hook H1) and of the runtime is a scheduling point, also
+    // inside polls - check-then-act races between critical sections of one poll and another thread
+    let fine_plain = match tier {
+        Tier::Quick => pick(&["backpressure", "hashjoin-inner", "groupby", "unionall"]),
+        Tier::Thorough => pick(&["backpressure", "hashjoin-inner", "hashjoin-left", "nljoin-left", "groupby", "agg-distinct", "sort-limit", "limit", "unionall", "matcte-union", "insert-select", "ctas", "error-in-partition"]),
+    };
+    let fine_cancel = match tier {
+        Tier::Quick => pick(&["backpressure"]),
+        Tier::Thorough => pick(&["backpressure", "hashjoin-inner", "groupby"]),
+    };
+    for (shapes, with_cancel, fine) in [(&plain, false, false), (&cancel, true, false), (&fine_plain, false, true), (&fine_cancel, true, true)] {
         for sh in shapes.iter() {
-            let cfg = ThrCfg { max_dev: dev, max_preempt: pre, wall_cap: Duration::from_secs(wall), exec_cap: u64::MAX, threads: threads(), with_cancel };
+            let cfg = ThrCfg { max_dev: dev, max_preempt: pre, wall_cap: Duration::from_secs(wall), exec_cap: u64::MAX, threads: threads(), with_cancel, fine };
             let r = thr::explore(sh, &cfg);
             execs += r.executions;
             decs += r.decisions;
@@ -260,10 +270,10 @@ fn thread_level(tier: Tier, all: &[Shape], rep: &mut Report) -> (u64, u64, u64) 
                 let mut steps: Vec<(usize, String)> = sh.setup.iter().map(|s| (0usize, s.clone())).collect();
                 steps.extend(sh.per_run.iter().map(|s| (0usize, s.clone())));
                 steps.push((0, sh.query.clone()));
-                Replay { check: if with_cancel { "C04/thread+cancel".into() } else { "C04/thread".into() }, steps, schedule: Some(schedule.to_vec()), expected: expected.into(), observed: observed.into(), note: format!("shape={} thread-level schedule on the real ThreadedScheduler (thread chosen at each scheduling point; 0 = result consumer, workers in spawn order{})", sh.name, if with_cancel { ", one thread calls QueryHandle::cancel" } else { "" }), ..Default::default() }
+                Replay { check: format!("C04/thread{}{}", if with_cancel { "+cancel" } else { "" }, if fine { "+locks" } else { "" }), steps, schedule: Some(schedule.to_vec()), expected: expected.into(), observed: observed.into(), note: format!("shape={} thread-level schedule on the real ThreadedScheduler (thread chosen at each scheduling point; 0 = result consumer, workers in spawn order{})", sh.name, if with_cancel { ", one thread calls QueryHandle::cancel" } else { "" }), ..Default::default() }
             };
             for v in &r.violations {
-                rep.fail(format!("C04|thread:{}|{}", v.class, base), mk(&v.schedule, &v.expected, &v.observed));
+                rep.fail(format!("C04|{}:{}|{}", if fine { "locks" } else { "thread" }, v.class, base), mk(&v.schedule, &v.expected, &v.observed));
             }
             if let Some(g) = &graph {
                 for (t, sched) in &r.distinct_task_traces {
@@ -278,14 +288,14 @@ fn thread_level(tier: Tier, all: &[Shape], rep: &mut Report) -> (u64, u64, u64) 
             if sample.is_none() {
                 sample = r.sample.clone().map(|s| json!({"shape": sh.name, "thread_schedule": s}));
             }
-            per_shape.push(json!({"shape": sh.name, "cancel": with_cancel, "executions": r.executions, "decisions": r.decisions, "complete_within_bound": r.complete, "max_decisions": r.max_len, "max_threads": r.max_threads, "tasks": r.n_tasks, "distinct_outcomes": r.distinct_outcomes, "distinct_task_traces": r.distinct_task_traces.len(), "cancel_runs_ending_in_error": r.cancel_error_runs, "cancel_runs_completed_before_cancel": r.cancel_late_runs}));
+            per_shape.push(json!({"shape": sh.name, "cancel": with_cancel, "lock_level": fine, "executions": r.executions, "decisions": r.decisions, "complete_within_bound": r.complete, "max_decisions": r.max_len, "max_threads": r.max_threads, "tasks": r.n_tasks, "distinct_outcomes": r.distinct_outcomes, "distinct_task_traces": r.distinct_task_traces.len(), "cancel_runs_ending_in_error": r.cancel_error_runs, "cancel_runs_completed_before_cancel": r.cancel_late_runs}));
         }
     }
     let accepted = conf.traces as u64;
     rep.cov(
         "thread_level",
         json!({"max_deviations": dev, "max_preemptions": pre, "executions": execs, "decisions": decs, "all_complete_within_bound": all_complete, "sample": sample, "shapes": per_shape,
-            "explanation": "every execution runs the real ThreadedScheduler::spawn_pipelines / TaskState::schedule / worker loop / ThreadedQueryHandle::cancel; one thread runs at a time and yields before every lock of a task's schedule state or pipeline outside a poll; all schedules with <= max_deviations non-default choices (of which <= max_preemptions preempt a runnable thread) are executed; oracles: terminates, same result, error reaches the client, cancel while a task is incomplete ends in an error, at most one worker per task, no poll after completion"}),
+            "explanation": "every execution runs the real ThreadedScheduler::spawn_pipelines / TaskState::schedule / worker loop / ThreadedQueryHandle::cancel; one thread runs at a time and yields before every lock of the threaded runtime outside a poll (thread level) or before every lock of the runtime and of the operator states, also inside polls, with try-lock semantics for held locks (lock level, hooks H1 + H2); all schedules with <= max_deviations non-default choices (of which <= max_preemptions preempt a runnable thread) are executed; oracles: terminates, same result, error reaches the client, cancel while a task is incomplete ends in an error, at most one worker per task, no poll after completion"}),
     );
     if let Some(g) = &graph {
         rep.cov(
